@@ -84,6 +84,16 @@ func noiseOp(op int, arg uint64) {
 		_, _ = s.SetBytesLECanonical(ref.LE32(new(big.Int).Add(ref.R, big.NewInt(int64(arg%9)))))
 		_, _ = common.ReadScalar(bytes.NewReader(make([]byte, 31)))
 		s.SetBytesLE(ref.LE32(big.NewInt(int64(arg))))
+		// decoders fed far more than 256 bits (legal for the reducing decoders), before and after a rejection
+		long := bytes.Repeat([]byte{0xff, 0x5a}, 32)
+		if arg%2 == 0 {
+			s.SetBytes(long)
+			_, _ = s.SetBytesLECanonical(ref.LE32(ref.R))
+		} else {
+			_, _ = s.SetBytesLECanonical(ref.LE32(ref.R))
+			s.SetBytesLE(long)
+		}
+		s.SetString("115792089237316195423570985008687907853269984665640564039457584007913129639936123456789")
 	case 2: // batch inversion with zeros at seed-dependent positions
 		v := make([]fr.Element, 1+arg%300)
 		for i := range v {
